@@ -79,6 +79,9 @@ META["rule"] += (
 META["rule"] += (
     " " + 'Added after the third round: `shuffled_anomaly()` requested before and after `anomaly()` (column-permutation relation); 40 % of the window changes reuse one dict object edited in place; phase / month lists in random order.')
 
+META["rule"] += (
+    " " + 'Added after the fifth round: whole-numbered axes handed over as int64 / int32 / int16 in half of the cases; the windowed observable is read once more after all derived quantities of a state; the anomalies switch as bool / np.bool_ / 0-1.')
+
 KEYS = ("time_min", "time_max", "lat_min", "lat_max", "lon_min", "lon_max")
 
 
